@@ -435,6 +435,11 @@ Definition unify_lifetime_var (v : variance) (var : N) (value : tm) (value_ui : 
       else push_outlives v (lt_var var) value
   end.
 
+(** [if !unify.unioned(a, b) { k }] *)
+Definition unless_unioned (a b : N) (k : M unit) : M unit :=
+  ca <- get_cell a ;; cb <- get_cell b ;;
+  if ccls ca =? ccls cb then ret tt else k.
+
 Inductive lcls := LInfer (v : N) | LPh (ui : N) | LStatic | LErased | LError | LBound | LBad.
 
 Definition lcls_of (a : tm) : lcls :=
@@ -455,7 +460,7 @@ Definition lcls_of (a : tm) : lcls :=
 Definition rel_lt_norm (v : variance) (a b : tm) : M unit :=
   match lcls_of a, lcls_of b with
   | LBad, _ | _, LBad => fail (Pan OtherPanic)
-  | LInfer va, LInfer vb => union_vars va vb
+  | LInfer va, LInfer vb => if is_inv v then union_vars va vb else unless_unioned va vb (push_outlives v a b)
   | LInfer va, LPh ui => unify_lifetime_var v va b ui
   | LPh ui, LInfer vb => unify_lifetime_var (invert v) vb a ui
   | LInfer va, (LErased | LStatic | LError) => unify_lifetime_var v va b 0
